@@ -112,12 +112,12 @@ _LFO_SWEEP = ("lfo", "sweep", T, {"thorough": 16})
 
 PROPS.update({
     "C10": {
-        "module": "lfo", "mc": _LFO_MC,
+        "module": "lfo", "mc": _LFO_MC, "graphs": [("lfo", "fs128", QT)],
         "traces": [("lfo", "shapes", QT), ("lfo", "freq", QT), ("lfo", "extreme", QT), ("lfo", "retune", QT), _LFO_SWEEP],
         "rule": "distinct table cells (of 1024) whose phases were read out; thorough: all 2^24 phases",
     },
     "C11": {"module": "lfo", "mc": _LFO_MC, "graphs": [("lfo", "fs128", QT)], "traces": [("lfo", "freq", QT), ("lfo", "shapes", QT), ("lfo", "extreme", QT), ("lfo", "retune", QT)]},
-    "C12": {"module": "lfo", "mc": _LFO_MC, "traces": [("lfo", "shapes", QT), ("lfo", "extreme", QT), ("lfo", "retune", QT), _LFO_SWEEP]},
+    "C12": {"module": "lfo", "mc": _LFO_MC, "graphs": [("lfo", "fs128", QT)], "traces": [("lfo", "shapes", QT), ("lfo", "extreme", QT), ("lfo", "retune", QT), _LFO_SWEEP]},
 })
 
 _ADSR_MC = [("adsr", "MC_Adsr", "MC_Adsr.cfg", QT), ("adsr-live", "MC_Adsr", "MC_Adsr_live.cfg", QT),
